@@ -125,16 +125,16 @@ def step (st : DSt) (toks : List String) : DSt × String :=
   | ["fold", raw, call] =>
     let rawT := decodeCps raw
     match fold (mkEnv st.table) st.cfg st.stats rawT (stratsOf call) with
-    | (tr, .ok (stats', r)) =>
+    | ⟨tr, .ok (stats', r)⟩ =>
       let sid := match r.struct with | some s => toString s | none => "none"
       ({ st with stats := stats' },
         joinSp [showBool r.valid, sid, showBool r.err.isSome, showBool (r.raw == rawT), showCalls st.table tr]
         ++ " ## " ++ (if r.valid then "hit" else "fail"))
-    | (tr, .raise _) => (st, joinSp ["raise", showCalls st.table tr])
+    | ⟨tr, .raise _⟩ => (st, joinSp ["raise", showCalls st.table tr])
   | ["foldx", raw, call] =>
     let rawT := decodeCps raw
     match foldX (mkEnv st.table) st.cfg st.stats rawT (stratsOf call) with
-    | (tr, .ok (stats', r)) =>
+    | ⟨tr, .ok (stats', r)⟩ =>
       let sid := match r.struct with | some s => toString s | none => "none"
       let tags := (if r.valid then "hitx:" ++ showOptStrat r.strategyUsed else "failx") ::
         (r.attempts.filter (fun a => !a.success)).map (fun a => errTag a.err)
@@ -143,7 +143,7 @@ def step (st : DSt) (toks : List String) : DSt × String :=
           showRat r.confidence, showList (r.coercions.map showNote), showList (r.attempts.map showAtt),
           showCalls st.table tr]
         ++ " ## " ++ joinSp tags)
-    | (tr, .raise _) => (st, joinSp ["raise", showCalls st.table tr])
+    | ⟨tr, .raise _⟩ => (st, joinSp ["raise", showCalls st.table tr])
   | ["stats"] => (st, showStats st.stats)
   | ["resetstats"] => ({ st with stats := Stats.zero }, "ok")
   | _ => (st, "bad-op")
